@@ -1172,6 +1172,17 @@ def bool_resolved_atoms(fn, atoms0, env):
     return atoms, feasible
 
 
+def every_path_has(fn, bb, pred):
+    """True if every feasible path from the entry to block `bb` carries an atom (e, polarity) with pred(e, polarity) -
+    boolean locals assigned in several arms are read along the path (bool_resolved_atoms).  Vacuously true when no
+    path is feasible (the block cannot be reached in this configuration)."""
+    for _t, atoms0, env in enum_paths(fn, 0, {bb}, want_env=True):
+        atoms, feasible = bool_resolved_atoms(fn, atoms0, env)
+        if feasible and not any(pred(e, p) for e, p in atoms):
+            return False
+    return True
+
+
 def enum_paths(fn, start, targets, limit=20000, want_env=False, resolve_atoms=False):
     """Every acyclic feasible path from block `start` to a block in `targets`, as
     (target, [(expr, polarity)]).  Unlike path_conditions this is path-sensitive for locals that
